@@ -85,7 +85,7 @@ def check(ctx: Ctx):
     ctx.expect("REJECT", 3)
     ctx.expect("REMOVE", 2)
     ctx.expect("NONETEST", 3)
-    ctx.expect("LINK", 1)
+    ctx.expect("LINK", 2)
     ctx.expect("ORDERFREE", 2)
     ctx.expect("ALIAS", 3)
     ctx.trust("list.append/pop/slicing semantics; numpy record .copy() allocates new storage")
